@@ -2253,12 +2253,51 @@ static int add_mapping_entry(vnaproperty_yaml_t *vymlp, int t_map,
  *   @rootptr:  address of property tree root
  *   @vp_node:  yaml node cast to void pointer
  */
+/*
+ * yaml_import_frame_t: chain of the collection nodes being imported
+ */
+typedef struct yaml_import_frame {
+    const yaml_node_t *yif_node;
+    const struct yaml_import_frame *yif_parent;
+} yaml_import_frame_t;
+
+static int yaml_import(vnaproperty_yaml_t *vymlp,
+	vnaproperty_t **rootptr, yaml_node_t *node,
+	const yaml_import_frame_t *parent);
+
 int _vnaproperty_yaml_import(vnaproperty_yaml_t *vymlp,
 	vnaproperty_t **rootptr, void *vp_node)
 {
-    yaml_document_t *document = vymlp->vyml_document;
-    yaml_node_t *node = vp_node;
+    return yaml_import(vymlp, rootptr, vp_node, NULL);
+}
 
+/*
+ * yaml_import: recursive part of _vnaproperty_yaml_import
+ *   @vymlp:    common argument structure
+ *   @rootptr:  address of property tree root
+ *   @node:     yaml node
+ *   @parent:   enclosing collection nodes
+ */
+static int yaml_import(vnaproperty_yaml_t *vymlp,
+	vnaproperty_t **rootptr, yaml_node_t *node,
+	const yaml_import_frame_t *parent)
+{
+    yaml_document_t *document = vymlp->vyml_document;
+    yaml_import_frame_t frame = { node, parent };
+
+    /*
+     * An alias can refer to a collection that contains it.  Refuse
+     * these instead of recursing forever.
+     */
+    for (const yaml_import_frame_t *yifp = parent; yifp != NULL;
+	    yifp = yifp->yif_parent) {
+	if (yifp->yif_node == node) {
+	    _vnaproperty_yaml_error(vymlp, VNAERR_SYNTAX,
+		    "%s (line %ld) error: alias refers to its own container",
+		    vymlp->vyml_filename, node->start_mark.line + 1);
+	    return -1;
+	}
+    }
     switch (node->type) {
     case YAML_SCALAR_NODE:
 	/*
@@ -2316,7 +2355,7 @@ int _vnaproperty_yaml_import(vnaproperty_yaml_t *vymlp,
 			    vymlp->vyml_filename, strerror(errno));
 		    goto out;
 		}
-		if (_vnaproperty_yaml_import(vymlp, subtree, value) == -1) {
+		if (yaml_import(vymlp, subtree, value, &frame) == -1) {
 		    goto out;
 		}
 	    }
@@ -2347,7 +2386,7 @@ int _vnaproperty_yaml_import(vnaproperty_yaml_t *vymlp,
 			    vymlp->vyml_filename, strerror(errno));
 		    goto out;
 		}
-		if (_vnaproperty_yaml_import(vymlp, subtree, value) == -1) {
+		if (yaml_import(vymlp, subtree, value, &frame) == -1) {
 		    goto out;
 		}
 	    }
